@@ -6,6 +6,7 @@
      count:     the row count aggregate of Q = number of rows of Q
      distinct:  rows(Q DISTINCT) = the set of rows(Q), each once
      window:    rows(Q ORDER BY k SKIP s LIMIT n) = SubSeq(rows(Q ORDER BY k), s+1, s+n)
+     uwindow:   without ORDER BY, rows(Q SKIP s LIMIT n) is a sub-bag of rows(Q) with exactly min(n, max(0, |rows(Q)| - s)) rows
      union:     rows(Q1 UNION ALL Q2) = rows(Q1) (+) rows(Q2)
      groups:    rows(Q RETURN key, count) has one row per distinct key of rows(Q RETURN key), with its multiplicity
      agree:     all variants (optimizer configurations) of one query return the same bag   *)
@@ -25,6 +26,9 @@ Ok(c) ==
     [] c.kind = "count" -> c.n = Len(c.rows)
     [] c.kind = "distinct" -> Rng(c.d) = Rng(c.full) /\ Len(c.d) = Cardinality(Rng(c.full))
     [] c.kind = "window" -> c.win = Window(c.full, c.skip, c.limit)
+    [] c.kind = "uwindow" -> LET rest == IF Len(c.full) > c.skip THEN Len(c.full) - c.skip ELSE 0 IN
+                             /\ Len(c.win) = (IF c.limit < 0 THEN rest ELSE Min2(c.limit, rest))
+                             /\ SubBagOf(Bag(c.win), Bag(c.full))
     [] c.kind = "union" -> Bag(c.u) = BagAdd(Bag(c.a), Bag(c.b))
     [] c.kind = "groups" -> LET fb == Bag(c.full) IN
                             /\ Len(c.g) = Cardinality(DOMAIN fb)
